@@ -611,7 +611,7 @@ def streams(ctx):
                       note="comma lists in 6 positions: tuple iff a comma is present"))
 
     # 3. reference sweep (exploration; judged by oracle only)
-    nm, ni, ne = (3000, 800, 1500) if q else (100000, 25000, 50000)
+    nm, ni, ne = (8000, 2000, 4000) if q else (100000, 25000, 50000)
     gm, tm = refsweep.generated(ctx, "sweep-m", nm, "m", {"depth": 3})
     gi, ti = refsweep.generated(ctx, "sweep-i", ni, "i", {"depth": 3})
     ge, te = refsweep.generated(ctx, "sweep-e", ne, "e", {"depth": 4})
@@ -623,7 +623,7 @@ def streams(ctx):
     out.append(_sweep_stream(ctx, "sweep-generated-interactive", gi, "i", "generated programs, Interactive mode (reference = module tree)"))
     out.append(_sweep_stream(ctx, "sweep-generated-expression", ge, "e", "generated expressions, Expression mode"))
     out.append(_sweep_stream(ctx, "sweep-generated-deep", gd, "m", "deeper nesting, fewer statements"))
-    files = refsweep.stdlib("m", limit=(1000 if q else None), rng=ctx.rng("stdlib"))
+    files = refsweep.stdlib("m", limit=None, rng=ctx.rng("stdlib"))
     out.append(_sweep_stream(ctx, "sweep-stdlib-module", [(s, None, r) for _, s, r in files], "m",
                              f"{len(files)} CPython stdlib files accepted by ast.parse", kind="corpus"))
     if not q:
